@@ -100,17 +100,43 @@ def audit_module(mod):
 FORBIDDEN = re.compile(r"\b(sorry|admit|native_decide|implemented_by|bv_decide)\b|^\s*axiom\s|\bunsafe\s|maxHeartbeats\s+0\b")
 
 
+def import_closure(mods):
+    """files of the Dalek.* modules transitively imported by `mods` (what the theorems actually depend on)"""
+    seen, todo, files = set(), list(mods), []
+    while todo:
+        m = todo.pop()
+        if m in seen or not m.startswith("Dalek"):
+            continue
+        seen.add(m)
+        path = os.path.join(LEAN, *m.split(".")) + ".lean"
+        if not os.path.exists(path):
+            continue
+        files.append(path)
+        for line in open(path, encoding="utf-8", errors="replace"):
+            mm = re.match(r"\s*(?:public\s+)?import\s+([A-Za-z0-9_.]+)", line)
+            if mm:
+                todo.append(mm.group(1))
+    return files
+
+
 def grep_forbidden(paths):
     hits = []
+    filelist = []
     for root in paths:
+        if os.path.isfile(root):
+            filelist.append(root)
+            continue
         for dp, dn, fn in os.walk(root):
             if ".lake" in dp:
                 continue
             for f in fn:
-                if not f.endswith(".lean"):
-                    continue
-                p = os.path.join(dp, f)
+                if f.endswith(".lean"):
+                    filelist.append(os.path.join(dp, f))
+    if True:
+        if True:
+            for p in filelist:
                 incomment = 0
+                f = os.path.basename(p)
                 for i, line in enumerate(open(p, encoding="utf-8", errors="replace")):
                     s = line
                     # crude comment stripping: block comments and line comments
